@@ -155,10 +155,14 @@ def md5 (m : List UInt8) : List UInt8 :=
   md5Encode [a, b, c, d]
 
 /-! ### AES (FIPS-197 §5.1.1): S-box = affine ∘ multiplicative inverse in GF(2^8) -/
-def gmul (a b : UInt8) : UInt8 :=
-  (List.range 8).foldl (fun (acc : UInt8 × UInt8) i =>
-      let (r, x) := acc
-      (if (b >>> UInt8.ofNat i) &&& 1 ≠ 0 then r ^^^ x else r, Aes.xtime x)) (0, a) |>.1
+/-- multiplication by x in GF(2^8) modulo x^8+x^4+x^3+x+1 -/
+def gxtime (b : UInt8) : UInt8 := if b ≥ 0x80 then (b <<< 1) ^^^ 0x1b else b <<< 1
+
+/-- full GF(2^8) multiplication (shift-and-add over all eight bits of the second factor) -/
+def gmulAux : Nat → UInt8 → UInt8 → UInt8 → UInt8
+  | 0, acc, _, _ => acc
+  | n + 1, acc, a, b => gmulAux n (if b &&& 1 ≠ 0 then acc ^^^ a else acc) (gxtime a) (b >>> 1)
+def gmul (a b : UInt8) : UInt8 := gmulAux 8 0 a b
 
 def gpow (a : UInt8) : Nat → UInt8
   | 0 => 1
